@@ -4,12 +4,17 @@
 // CoreState::reset on a real CoreState built from SimpleTestBase.  Same one-op-per-line
 // protocol as lean/CelerVerif/Model/TrackInitDriver.lean; all numbers decimal.
 //
-//   config <slots> <capacity> <maxEvents> <order 0|1> <stackcap>
+//   config <slots> <capacity> <maxEvents> <order 0..7> <stackcap>
+//     order: 0 none, 1 init_charge, 2 reindex_shuffle, 3 reindex_status, 4 reindex_particle_type,
+//            5 reindex_along_step_action, 6 reindex_step_limit_action, 7 reindex_both_action
+//     (for 3..7 the real SortTracksAction(s) are run where the Stepper runs them)
 //   insert <ev>:<particle>:<pos> ...      efp   init   pre   cut   efs   reset   reseed
 //   interact <spec_0> ... <spec_{slots-1}>   spec = a|k|u|e followed by g/e/x per secondary
 #include <cmath>
 #include <cstdlib>
+#include <array>
 #include <memory>
+#include <vector>
 
 #include "corecel/data/CollectionAlgorithms.hh"
 #include "corecel/data/Ref.hh"
@@ -26,6 +31,7 @@
 #include "celeritas/track/ExtendFromPrimariesAction.hh"
 #include "celeritas/track/ExtendFromSecondariesAction.hh"
 #include "celeritas/track/InitializeTracksAction.hh"
+#include "celeritas/track/SortTracksAction.hh"
 #include "celeritas/track/TrackInitParams.hh"
 
 #include "common/lineio.hh"
@@ -93,6 +99,7 @@ struct World
     std::unique_ptr<Fix> fix;
     std::unique_ptr<CoreState<MemSpace::host>> state;
     std::shared_ptr<CoreStepActionInterface const> init, pre, cut, efs;
+    std::vector<std::shared_ptr<CoreStepActionInterface const>> sorts;
     size_type slots = 0, maxev = 0;
     bool poisoned = false;
 };
@@ -253,7 +260,7 @@ int main()
                 for (int i = 0; ok && i < 5; ++i)
                     ok = parse_dec(t[i + 1], &a[i]);
                 if (!ok || a[0] < 1 || a[0] > 256 || a[1] < 1 || a[1] > 100000 || a[2] < 1
-                    || a[2] > 64 || a[3] > 1 || a[4] > 100000)
+                    || a[2] > 64 || a[3] > 7 || a[4] > 100000)
                 {
                     res = "bad-op";
                 }
@@ -264,7 +271,16 @@ int main()
                     // capacity = size_type(slots * factor)
                     real_type factor = (a[4] + 0.5) / static_cast<real_type>(a[0]);
                     w.fix = std::make_unique<Fix>(
-                        a[1], a[2], a[3] ? TrackOrder::init_charge : TrackOrder::none, factor);
+                        a[1], a[2],
+                        std::array<TrackOrder, 8>{TrackOrder::none,
+                                                  TrackOrder::init_charge,
+                                                  TrackOrder::reindex_shuffle,
+                                                  TrackOrder::reindex_status,
+                                                  TrackOrder::reindex_particle_type,
+                                                  TrackOrder::reindex_along_step_action,
+                                                  TrackOrder::reindex_step_limit_action,
+                                                  TrackOrder::reindex_both_action}[a[3]],
+                        factor);
                     w.slots = a[0];
                     w.maxev = a[2];
                     w.poisoned = false;
@@ -274,6 +290,16 @@ int main()
                     w.pre = w.fix->find("pre-step");
                     w.cut = w.fix->find("tracking-cut");
                     w.efs = w.fix->find("extend-from-secondaries");
+                    w.sorts.clear();
+                    {
+                        auto const& reg = *w.fix->action_reg();
+                        for (auto aid : range(ActionId{reg.num_actions()}))
+                        {
+                            if (auto sp = std::dynamic_pointer_cast<SortTracksAction const>(
+                                    reg.action(aid)))
+                                w.sorts.push_back(sp);
+                        }
+                    }
                     if (!w.init || !w.pre || !w.cut || !w.efs)
                     {
                         std::cout << "config missing-action\n";
@@ -370,11 +396,19 @@ int main()
             else if (t[0] == "init" && t.size() == 1)
             {
                 w.init->step(*w.fix->core(), *w.state);
+                // the Stepper runs the sort actions of order sort_start right after
+                for (auto const& sa : w.sorts)
+                    if (sa->order() == StepActionOrder::sort_start)
+                        sa->step(*w.fix->core(), *w.state);
                 res = "init ok" + dump(w);
             }
             else if (t[0] == "pre" && t.size() == 1)
             {
                 w.pre->step(*w.fix->core(), *w.state);
+                for (auto const& sa : w.sorts)
+                    if (sa->order() == StepActionOrder::sort_pre
+                        || sa->order() == StepActionOrder::sort_pre_post)
+                        sa->step(*w.fix->core(), *w.state);
                 res = "pre ok" + dump(w);
             }
             else if (t[0] == "cut" && t.size() == 1)
